@@ -19,13 +19,15 @@
  Rs sorted        : every numpy.interp abscissa is ascending by construction or by a recorded precondition.
  R5 lumped once    : Raman solver: per-section / per-step loss factors are a selection of the lumped-loss array (never an
                      accumulation) while the start power of a section is the end of the previous one.
+ R6 lumped all     : every declared lumped loss reaches the solver grid (same-position losses are cumulated, not selected).
+ R7 channel order  : SpectralInformation re-orders every per-channel array (CD, PMD, PDL, latency included) with one argsort.
 """
 import ast
 
 from ..model import AnchorMissing, CannotAnalyse, walk_no_nested
 from ..poly import Rat, C, mk_atom, lem_sqrt, lem_log, lem_exp, fn, subst
 from ..vg import Evaluator, vkey, atoms_of, State, Const
-from .common import calls_to, site, key, attr_stores, all_attr_stores
+from .common import calls_to, site, key, attr_stores, all_attr_stores, stmt_of
 
 EL = 'gnpy.core.elements'
 OPAQUE = {'compute_nli', 'calculate_stimulated_raman_scattering', 'calculate_spontaneous_raman_scattering',
@@ -392,6 +394,79 @@ def r5_lumped_once(ctx):
     ctx.need('R5.lumped-once', 2)
 
 
+def r6_lumped_all(ctx):
+    """R6: every declared lumped loss reaches the solver grid: where the loss positions are merged with the z grid (numpy.unique),
+    the losses that fall on the same grid point are CUMULATED (product over the inverse index), never selected by first
+    occurrence (return_index) - Fiber.loss, the design budget, counts every declared loss"""
+    from ..dataflow import local_defs
+    repo = ctx.repo
+    rs = repo.cls('RamanSolver', 'gnpy.core.science_utils')
+    f = repo.method(rs, '_create_lumped_losses')
+    LL = f.params[1]
+    defs = local_defs(f.node)
+
+    def from_losses(e, depth=4):
+        for x in ast.walk(e):
+            if isinstance(x, ast.Name):
+                if x.id == LL:
+                    return True
+                if depth > 0:
+                    for _, v in defs.get(x.id, []):
+                        vv = v[1] if isinstance(v, tuple) and len(v) == 3 else v
+                        if isinstance(vv, ast.AST) and vv is not e and from_losses(vv, depth - 1):
+                            return True
+        return False
+    uq = [c for c in calls_to(f, {'unique'})]
+    idx_names, inv_names = set(), set()
+    for c in uq:
+        st = stmt_of(f, c)
+        tg = st.targets[0] if isinstance(st, ast.Assign) else None
+        names = [e.id for e in tg.elts] if isinstance(tg, ast.Tuple) else []
+        flags = [k.arg for k in c.keywords if isinstance(k.value, ast.Constant) and k.value.value is True]
+        # numpy.unique returns (values, [index], [inverse], [counts]) in this order
+        pos = 1
+        for flag in ('return_index', 'return_inverse', 'return_counts'):
+            if flag in flags and pos < len(names):
+                (idx_names if flag == 'return_index' else inv_names if flag == 'return_inverse' else set()).add(names[pos])
+                pos += 1
+    sel = [x for x in ast.walk(f.node) if isinstance(x, ast.Subscript) and isinstance(x.ctx, ast.Load) and from_losses(x.value) and
+           any(isinstance(y, ast.Name) and y.id in idx_names for y in ast.walk(x.slice))]
+    s_ = site(f)
+    ctx.check('R6.lumped-all', f'{s_} no first-occurrence selection', bool(uq) and not sel, key(f, 'first-occurrence'),
+              'the loss array is indexed with the first-occurrence index of numpy.unique: of two lumped losses declared at the same '
+              'position only the first is applied, while Fiber.loss (design budget) counts both',
+              '; '.join(ast.unparse(x)[:60] for x in sel))
+    # cumulation over the inverse index
+    cum = False
+    for lp in [x for x in walk_no_nested(f.node) if isinstance(x, ast.For)]:
+        it = lp.iter
+        if isinstance(it, ast.Call) and getattr(it.func, 'id', '') == 'zip' and isinstance(lp.target, ast.Tuple) and len(lp.target.elts) == 2 and \
+                len(it.args) == 2:
+            (a0, a1), (t0, t1) = it.args, lp.target.elts
+            pairs = [(a0, t0, a1, t1), (a1, t1, a0, t0)]
+            for ia, it_, la, lt in pairs:
+                if isinstance(ia, ast.Name) and ia.id in inv_names and from_losses(la):
+                    for st in lp.body:
+                        if isinstance(st, ast.AugAssign) and isinstance(st.op, ast.Mult) and isinstance(st.target, ast.Subscript) and \
+                                ast.unparse(st.target.slice) == ast.unparse(it_) and ast.unparse(st.value) == ast.unparse(lt):
+                            cum = True
+    for c in ast.walk(f.node):
+        if isinstance(c, ast.Call) and ast.unparse(c.func) in ('multiply.at', 'numpy.multiply.at', 'np.multiply.at') and len(c.args) == 3 and \
+                isinstance(c.args[1], ast.Name) and c.args[1].id in inv_names and from_losses(c.args[2]):
+            cum = True
+    ctx.check('R6.lumped-all', f'{s_} losses at one grid point are cumulated', cum, key(f, 'cumulated'),
+              'the losses that fall on the same grid point are not multiplied together over the inverse index of numpy.unique')
+    ctx.need('R6.lumped-all', 2)
+
+
+def r7_channel_order(ctx):
+    """R7: the accumulated per-channel quantities (chromatic dispersion, PMD, PDL, latency) stay attached to their channels
+    whenever a spectrum is (re)built: SpectralInformation re-orders EVERY per-channel array with the one argsort of the
+    frequencies (shared with C01-R2)"""
+    from .c01 import init_permutation
+    init_permutation(ctx, 'R7.channel-order')
+
+
 def rk_field_key(ctx):
     """Rk: the parameter classes behind this property store every configuration entry under its own name (self.X = params['X']);
     the deliberate renames are a frozen table (gscan/fieldkey.py)"""
@@ -428,4 +503,4 @@ from ..presence import rule_for as _presence_rule
 
 RULES_PRESENCE = ('Rp.presence', _presence_rule('C05', 'a fibre parameter of exactly 0 would be replaced by a default'))
 
-RULES = [('R4.cd', r4_cd), ('R1.once', r1_once), ('R2.budget', r2_budget), ('R3.accumulators', r3_accumulators), RULES_MEMO, RULES_PRESENCE, ('Rk.field-key', rk_field_key), ('Ru.units', ru_units), ('Rs.sorted-abscissa', rs_sorted), ('R5.lumped-once', r5_lumped_once)]
+RULES = [('R4.cd', r4_cd), ('R1.once', r1_once), ('R2.budget', r2_budget), ('R3.accumulators', r3_accumulators), RULES_MEMO, RULES_PRESENCE, ('Rk.field-key', rk_field_key), ('Ru.units', ru_units), ('Rs.sorted-abscissa', rs_sorted), ('R5.lumped-once', r5_lumped_once), ('R6.lumped-all', r6_lumped_all), ('R7.channel-order', r7_channel_order)]
